@@ -75,7 +75,14 @@ func genFrameStream(r *RNG) ([]byte, string) {
 	n := 1 + r.Intn(5)
 	for i := 0; i < n; i++ {
 		id := uint32(Pick(r, 0, 1, 3, 1<<31-1))
-		switch r.Intn(11) {
+		switch r.Intn(12) {
+		case 11:
+			// a padded DATA or HEADERS frame whose Pad Length octet sits on the boundary: equal to the payload length (no
+			// room for the octet itself: impossible), one less (all padding, no content: legal), one more, 255
+			L := Pick(r, 1, 2, 5, 9, 100)
+			pl := make([]byte, L)
+			pl[0] = byte(Pick(r, L, L, L-1, L+1, 255))
+			out = append(out, fw.Raw(uint8(Pick(r, int(FData), int(FHeaders))), uint8(0x08|Pick(r, 0, 1, 4, 5)), id|1, pl)...)
 		case 0:
 			out = append(out, fw.Data(id|1, r.Intn(2) == 0, make([]byte, Pick(r, 0, 1, 100, 16384)), Pick(r, -1, -1, 0, 1, 255))...)
 		case 1:
